@@ -750,7 +750,7 @@ pub fn outl_find_cloned<T>(tree: &RegexTreeMap<RouteRef<T>>, path: &str) -> (r: 
 { /* verbatim: self .regex_tree_rule .find(path.as_str()) .iter() .map(|route| (*route).clone()) .collect() */ unimplemented!() }
 #[verifier::external_body]
 pub fn outl_values_cloned<T>(m: &HashMap<String, RouteRef<T>>) -> (r: Vec<RouteRef<T>>) ensures ms_of(r@) == route_vals(m@)
-{ /* verbatim: static_storage.values().cloned().collect::<Vec<Arc<Route<T>>>>() */ unimplemented!() }
+{ /* verbatim: static_storage.values().cloned().collect::<Vec<Arc<Route<T>>>>() | routes.values().cloned().collect::<Vec<Arc<Route<T>>>>() */ unimplemented!() }
 //@@ item src/router/request_matcher/path_and_query.rs :: struct PathAndQueryMatcher
 pub open spec fn static_bucket<T>(m: Map<String, HashMap<String, RouteRef<T>>>, s: Seq<char>) -> Multiset<RouteRef<T>> {
     if exists|key: String| key@ == s && m.contains_key(key) { let key = choose|key: String| key@ == s && m.contains_key(key); route_vals(m[key]@) } else { Multiset::empty() }
@@ -1601,6 +1601,85 @@ impl<T> HostMatcher<T> {
     //@| replace `host == request_host` => `*host == *request_host` :: `&String == &str` is defined by std as the comparison of the referents; Verus has no spec for the reference impl
 }
 //@@ unrename IpMatcher
+
+// ================================================================ path-and-query layer trace (C17)
+pub open spec fn derefs_ms<T>(vs: Seq<&RouteRef<T>>) -> Multiset<RouteRef<T>> { vs.map_values(|r: &RouteRef<T>| *r).to_multiset() }
+pub open spec fn ttr_ms<T>(t: TreeTrace<RouteRef<T>>) -> Multiset<RouteRef<T>>
+    decreases t
+{ (if t.matched { derefs_ms(t.values@) } else { Multiset::<RouteRef<T>>::empty() }).add(ttr_children(t.children@, t.children@.len() as int)) }
+pub open spec fn ttr_children<T>(cs: Seq<TreeTrace<RouteRef<T>>>, k: int) -> Multiset<RouteRef<T>>
+    decreases cs, k
+{ if k <= 0 || k > cs.len() { Multiset::empty() } else { ttr_children(cs, k - 1).add(ttr_ms(cs[k - 1])) } }
+impl<T> RegexTreeMap<RouteRef<T>> {
+    // ASSUMED here, PROVED in unit tree (RegexTreeMap::trace: the values under matched trace nodes are the linear scan, as is find)
+    #[verifier::external_body]
+    pub fn trace<'a>(&'a self, haystack: &str) -> (r: TreeTrace<'a, RouteRef<T>>) ensures ttr_ms(r) == self.matching(haystack@) { unimplemented!() }
+}
+// R8 outlined expression (iterator adapter chain): assumed std behaviour — clones of the listed routes
+#[verifier::external_body]
+pub fn outl_refs_cloned<T>(vs: &Vec<&RouteRef<T>>) -> (r: Vec<RouteRef<T>>) ensures ms_of(r@) == derefs_ms(vs@)
+{ /* verbatim: tree_trace.values.iter().map(|r| (*r).clone()).collect::<Vec<Arc<Route<T>>>>() */ unimplemented!() }
+//@@ rename tree_trace_to_trace pq_tree_trace_to_trace
+// conversion of the path tree's trace: the routes below the result are the values listed under MATCHED tree nodes
+//@@ fn src/router/request_matcher/path_and_query.rs :: fn tree_trace_to_trace -> r
+//@| ensures r.matched == tree_trace.matched, r.count == tree_trace.count, trace_routes(r) == ttr_ms(tree_trace),
+//@| decreases tree_trace,
+//@| outline `tree_trace.values.iter().map(|r| (*r).clone()).collect::<Vec<Arc<Route<T>>>>()` => `outl_refs_cloned(&tree_trace.values)`
+//@| forlabel 0: it
+//@| attr #[verifier::loop_isolation(false)]
+//@| entry let ghost tt0 = tree_trace; let ghost tc = tree_trace.children@; proof { lemma_forest_empty::<T>(); lemma_ms_empty::<T>(); }
+//@| loop 0: invariant iter_ok(it.history@, it.index@, it.snapshot@.remaining(), tc), forest_routes(children@, children@.len() as int) == ttr_children(tc, it.index@ as int),
+//@| loophead 0: let ghost c0 = children@; let ghost k = it.index@ as int; proof { assert(child == tc[k]); }
+//@| looptail 0: proof { let t = children@.last(); assert(children@ =~= c0.push(t)); lemma_forest_push(c0, t); }
+//@| before `if !tree_trace.values.is_empty() {`: let ghost c1 = children@;
+//@| exit proof {
+//@|     lemma_trace_node(vf_ret);
+//@|     let vals = if tt0.matched { derefs_ms(tt0.values@) } else { Multiset::<RouteRef<T>>::empty() };
+//@|     if vf_ret.children@.len() > c1.len() {
+//@|         let t = vf_ret.children@.last(); assert(vf_ret.children@ =~= c1.push(t)); lemma_forest_push(c1, t);
+//@|         assert(trace_routes(t) =~= vals) by { assert(forest_routes(t.children@, 0) =~= Multiset::<RouteRef<T>>::empty()); assert(stored(t).add(Multiset::empty()) =~= stored(t)); }
+//@|     } else {
+//@|         assert(tt0.values@.len() == 0);
+//@|         assert(derefs_ms(tt0.values@) =~= Multiset::<RouteRef<T>>::empty()) by { broadcast use vstd::seq_lib::group_to_multiset_ensures; assert(tt0.values@.map_values(|r: &RouteRef<T>| *r) =~= Seq::<RouteRef<T>>::empty()); lemma_ms_empty::<T>(); }
+//@|         assert(forest_routes(c1, c1.len() as int).add(Multiset::empty()) =~= forest_routes(c1, c1.len() as int));
+//@|     }
+//@|     assert(ttr_ms(tt0) =~= vals.add(ttr_children(tc, tc.len() as int)));
+//@|     assert(vals.add(ttr_children(tc, tc.len() as int)) =~= ttr_children(tc, tc.len() as int).add(vals));
+//@| }
+
+impl<T> PathAndQueryMatcher<T> {
+    // C17, path layer: the pattern rules through the tree trace, the literal rules of the request's path as one storage node
+    //@@ fn src/router/request_matcher/path_and_query.rs :: impl <T>PathAndQueryMatcher<T> / fn trace -> r
+    //@| ensures forest_routes(r@, r@.len() as int) == self.regex_tree_rule.matching(req_path(*request)).add(static_bucket(self.static_rules@, req_path(*request))),
+    //@| outline `routes.values().cloned().collect::<Vec<Arc<Route<T>>>>()` => `outl_values_cloned(routes)`
+    //@| entry broadcast use vstd::std_specs::hash::group_hash_axioms; broadcast use axiom_string_key_model; broadcast use axiom_borrow_str_contains; broadcast use axiom_borrow_str_maps;
+    //@|     proof { axiom_string_ext(); lemma_forest_empty::<T>(); lemma_ms_empty::<T>(); }
+    //@| after `let trace = tree_trace_to_trace(path.as_str(), self.regex_tree_rule.trace(path.as_str()));`: let ghost tr = trace;
+    //@|     proof { assert(trace_routes(tr) == self.regex_tree_rule.matching(req_path(*request))); }
+    //@| before `let static_traces = match self.static_rules.get(path.as_str()) {`: let ghost ta = traces@;
+    //@|     proof { let t = ta[0]; assert(ta.len() == 1); lemma_trace_node(t); assert(t.children@ =~= seq![tr]); lemma_forest_push(Seq::<Trace<T>>::empty(), tr); assert(Seq::<Trace<T>>::empty().push(tr) =~= seq![tr]);
+    //@|         assert(Multiset::<RouteRef<T>>::empty().add(trace_routes(tr)) =~= trace_routes(tr)); assert(trace_routes(t) == trace_routes(tr)); }
+    //@| before `traces.push(Trace::new(`: proof {
+    //@|     let b = static_bucket(self.static_rules@, req_path(*request));
+    //@|     if static_traces@.len() == 0 { assert(forest_routes(static_traces@, 0) =~= Multiset::<RouteRef<T>>::empty()); }
+    //@|     else { let st = static_traces@[0]; assert(static_traces@.len() == 1); assert(forest_routes(st.children@, 0) =~= Multiset::<RouteRef<T>>::empty());
+    //@|         assert(trace_routes(st) =~= stored(st)) by { assert(stored(st).add(Multiset::empty()) =~= stored(st)); }
+    //@|         assert(forest_routes(static_traces@, 1) == forest_routes(static_traces@, 0).add(trace_routes(st)));
+    //@|         assert(Multiset::<RouteRef<T>>::empty().add(trace_routes(st)) =~= trace_routes(st)); }
+    //@|     assert(forest_routes(static_traces@, static_traces@.len() as int) == b);
+    //@| }
+    //@| exit proof {
+    //@|     let a = self.regex_tree_rule.matching(req_path(*request)); let b = static_bucket(self.static_rules@, req_path(*request));
+    //@|     assert(traces@ =~= ta.push(traces@.last())); assert(traces@[0] == ta[0]);
+    //@|     let t0 = traces@[0]; let t1 = traces@[1];
+    //@|     assert(traces@.len() == 2);
+    //@|     lemma_trace_node(t0); lemma_trace_node(t1);
+    //@|     assert(forest_routes(traces@, 2) == forest_routes(traces@, 1).add(trace_routes(t1)));
+    //@|     assert(forest_routes(traces@, 1) == forest_routes(traces@, 0).add(trace_routes(t0)));
+    //@|     assert(Multiset::<RouteRef<T>>::empty().add(trace_routes(t0)) =~= trace_routes(t0));
+    //@| }
+}
+//@@ unrename tree_trace_to_trace
 
 // ================================================================ Router entry points (C01 / C17 at the top level)
 // `Router::match_request` hands the request to the scheme layer as it is; `trace_request` first re-normalises it (statement C17: the trace
